@@ -70,7 +70,7 @@ class Runner:
             if not out_ids:
                 out_ids = None
         sol = m.calculate(inputs=inputs, outputs=out_ids) if out_ids else m.calculate(inputs=inputs)
-        flat, conflicts = G.flatten(sol)
+        flat, conflicts = G.flatten(sol, supplied=set(inputs))
         tag = '+'.join(O.ov_labels(spec, ovs)) or 'no-override'
         hist = '>'.join(t[0] for t in self.trace[-2:]) or 'start'
         # unpopulated cells of a multi-cell override: only the readers of that very rectangle are asserted (their own
